@@ -196,3 +196,9 @@ impl TopicAliasSend {
         self.max_alias
     }
 }
+
+#[cfg(all(feature = "verif-hooks", kani))]
+#[allow(dead_code, unused)]
+pub(crate) mod verif_harness {
+    include!(concat!(env!("VERIF_HARNESS_DIR"), "/topic_alias_send_h.rs"));
+}
